@@ -25,6 +25,9 @@ PROP = dict(
           "twice), 2-3 such operations inside one loop task, re-installing the disposition of a signal nobody is subscribed to, and deliveries: raise() or "
           "pthread_sigqueue() to the calling thread from the orchestrator, raise() inside a task on a loop thread, or (a quarter of the single deliveries, asan legs) "
           "pthread_kill() at the thread of a chosen loop that /proc shows blocked in its epoll/select wait (three barrier rounds then), one at a time, bursts of 2-25 back-to-back "
+          "(one delivery step in five: 2-14 deliveries of mostly different signal numbers raised while every loop thread is parked inside a task, after which 0-2 "
+          "of the subscribed events are disabled/destroyed on their loop before it reads its pipe; three single deliveries in four, where a loop has >= 3 enabled "
+          "events on the signal: the callback of one persistent event disables a sibling, all six address orders of disabler/victim/bystander counted) "
           "deliveries only while no one-shot/self-modifying event is enabled; every operation is run on the owning loop and acknowledged, every delivery is "
           "followed by two acknowledged barrier tasks per loop before the counts are compared with the model; the disposition of every signal without a model "
           "subscriber is compared with the snapshot taken before the first subscription after EVERY step; teardown destroys the remaining events on their loops "
@@ -40,7 +43,10 @@ PROP = dict(
                  "no subscription change is requested by the harness while a delivery is in progress; back-to-back bursts are generated only when no enabled event "
                  "changes its own subscription on delivery",
                  "a one-shot event may fire again after it has been enabled again ('at most once' is judged per enable)",
-                 "events are never destroyed or disabled from inside another event's callback (a FIXME in the code, outside the quantifier); re-initialising an event "
+                 "events are never destroyed from inside a callback (a FIXME in the code, outside the quantifier); an event disabled by a sibling's callback in the middle "
+                 "of a dispatch, or disabled/destroyed on its loop while deliveries are still queued in the loop's pipe, may get 0 or 1 callback per such delivery "
+                 "(its place in the dispatch order is not specified) - every other enabled event is judged exactly; a one-shot that re-enables itself in its callback must "
+                 "fire for the first of several queued deliveries, the later ones (raised before the re-enable) are judged 'at most one each'; re-initialising an event "
                  "is not generated",
                  "after enable() returned false nothing is assumed about the event until it is destroyed; afterwards it must be gone (disposition restored, no callback, "
                  "no use of the freed object)",
@@ -64,7 +70,11 @@ PROP = dict(
                                "max_loops_subscribed_to_one_signal", "deliveries_to_more_than_8_loops", "deliveries_to_more_than_16_loops",
                                "deliveries_raised_on_a_loop_thread", "deliveries_by_pthread_kill_at_waiting_loop_thread_epoll",
                                "deliveries_by_pthread_kill_at_waiting_loop_thread_select", "deliveries_by_pthread_kill_at_loop_thread_with_own_subscriber",
-                               "handler_ran_on_loop_thread", "deliveries_before_loop_started", "subscriptions_before_loop_started",
+                               "handler_ran_on_loop_thread",
+                               "held_bursts", "held_burst_release_ops", "pipes_with_several_queued_entries", "batches_with_stale_entry_before_live_entry",
+                               "deliveries_with_sibling_disabled_in_callback_3plus_events", "address_order_disabler_victim_bystander",
+                               "address_order_disabler_bystander_victim", "address_order_bystander_disabler_victim", "address_order_victim_disabler_bystander",
+                               "address_order_victim_bystander_disabler", "address_order_bystander_victim_disabler", "deliveries_before_loop_started", "subscriptions_before_loop_started",
                                "oneshot_fired", "oneshot_multi_signal_fired", "restore_triggered_from_inside_dispatch", "window_reaction_may_overlap_handler",
                                "bursts_over_one_pipe_read", "loop_first_subscription_pipe_created", "loop_last_subscription_pipe_closed",
                                "teardown_destroy_after_loop_stopped", "loops_epoll", "loops_select", "enum_sequences",
